@@ -73,6 +73,46 @@ class Other(Event):
     flag: bool
 
 
+@event("verif.c33.clash")
+class Clash(Event):
+    """reuses the field names of Ev with other annotations (a decoder that keys anything by field name alone mixes them up)"""
+
+    x: bool
+    k: int
+    lane: Static[PyKind]
+
+
+def roundtrip_one(schema, raws, tmp):
+    log = EventLog(schema)
+    for r in raws:
+        log.emit_raw(*r)
+    fn = os.path.join(tmp, "a.jsonl")
+    log.save(fn)
+    l2 = EventLog.load(fn)
+    fn2 = os.path.join(tmp, "b.jsonl")
+    with EventLogWriter(fn2, schema) as w:
+        for r in raws:
+            w.emit_raw(*r)
+    rd = EventLogReader(fn2)
+    streamed = list(rd)
+    exp_events = []
+    for c, site, vals in raws:
+        if site == 0:
+            exp_events.append((c, "srcA", Ev(x=vals[0], s=vals[1], k=PyKind(vals[2]), lane=1, unit=PyKind.Z)))
+        elif site == 1:
+            exp_events.append((c, "srcB", Other(flag=bool(vals[0]))))
+        else:
+            exp_events.append((c, "srcC", Clash(x=bool(vals[0]), k=vals[1], lane=PyKind.Z)))
+    got_a = [(e.cycle, e.source_name, e.event) for e in l2.decoded()]
+    got_b = [(e.cycle, e.source_name, e.event) for e in streamed]
+    got_c = [(e.cycle, e.source_name, e.event) for e in log.decoded()]
+    ok = got_a == exp_events and got_b == exp_events and got_c == exp_events and l2.raw == [(c, s, list(v)) for c, s, v in raws] and l2.schema == schema and rd.schema == schema
+    ok = ok and all(type(e[2].k) is PyKind and type(e[2].unit) is PyKind for e in got_a if isinstance(e[2], Ev)) and all(type(e[2].flag) is bool for e in got_a if isinstance(e[2], Other))
+    ok = ok and all(type(e[2].x) is bool and type(e[2].k) is int and type(e[2].lane) is PyKind for g in (got_a, got_b, got_c) for e in g if isinstance(e[2], Clash))
+    ok = ok and all(type(e[2].x) is int and type(e[2].lane) is int for g in (got_a, got_b, got_c) for e in g if isinstance(e[2], Ev))
+    return ok, got_a, got_b
+
+
 def configs(tier):
     return [{"part": "hw", "enabled": True}, {"part": "hw", "enabled": False}, {"part": "capture"}, {"part": "sampler"}, {"part": "roundtrip"}, {"part": "consumer"}]
 
@@ -271,41 +311,25 @@ def run(cfg, ctx):
             schema = EvLogSchema(sites=[
                 EventSiteSchema("srcA", "verif.c33.ev", ("file.py", 3), [EventFieldSchema("x", 3), EventFieldSchema("s", 2, True), EventFieldSchema("k", 2)], {"lane": 1, "unit": 3}),
                 EventSiteSchema("srcB", "verif.c33.other", ("file.py", 9), [EventFieldSchema("flag", 1)], {}),
+                EventSiteSchema("srcC", "verif.c33.clash", ("file.py", 12), [EventFieldSchema("x", 1), EventFieldSchema("k", 2)], {"lane": 3}),
             ], metadata={"cfg": {"w": 2}})
             v0 = [[0, 0, 0], [5, -2, 3], [7, 1, 1]]
             v1 = [[0], [1]]
-            recs_space = [(c, 0, v) for c in (0, 2) for v in v0] + [(c, 1, v) for c in (1, 2) for v in v1]
+            v2 = [[1, 3], [0, 2]]
+            recs_space = [(c, 0, v) for c in (0, 2) for v in v0] + [(c, 1, v) for c in (1, 2) for v in v1] + [(c, 2, v) for c in (1,) for v in v2]
             for L in (0, 1, 2, 3):
                 for raws in itertools.product(recs_space, repeat=L):
                     n += 1
-                    log = EventLog(schema)
-                    for r in raws:
-                        log.emit_raw(*r)
-                    fn = os.path.join(tmp, "a.jsonl")
-                    log.save(fn)
-                    l2 = EventLog.load(fn)
-                    fn2 = os.path.join(tmp, "b.jsonl")
-                    with EventLogWriter(fn2, schema) as w:
-                        for r in raws:
-                            w.emit_raw(*r)
-                    rd = EventLogReader(fn2)
-                    streamed = list(rd)
-                    exp_events = []
-                    for c, site, vals in raws:
-                        if site == 0:
-                            exp_events.append((c, "srcA", Ev(x=vals[0], s=vals[1], k=PyKind(vals[2]), lane=1, unit=PyKind.Z)))
-                        else:
-                            exp_events.append((c, "srcB", Other(flag=bool(vals[0]))))
-                    got_a = [(e.cycle, e.source_name, e.event) for e in l2.decoded()]
-                    got_b = [(e.cycle, e.source_name, e.event) for e in streamed]
-                    got_c = [(e.cycle, e.source_name, e.event) for e in log.decoded()]
-                    ok = got_a == exp_events and got_b == exp_events and got_c == exp_events and l2.raw == [(c, s, list(v)) for c, s, v in raws] and l2.schema == schema and rd.schema == schema
-                    ok = ok and all(type(e[2].k) is PyKind and type(e[2].unit) is PyKind for e in got_a if isinstance(e[2], Ev)) and all(type(e[2].flag) is bool for e in got_a if isinstance(e[2], Other))
+                    try:
+                        ok, got_a, got_b = roundtrip_one(schema, raws, tmp)
+                    except Exception as e:  # noqa: BLE001  (the functions under contract raised: the postcondition says they return the events)
+                        ok, got_a, got_b = False, f"raised {type(e).__name__}: {e}", ""
                     if not ok:
                         fails.append({"raw": list(raws), "loaded": repr(got_a)[:300], "streamed": repr(got_b)[:300]})
+                    continue
         finally:
             shutil.rmtree(tmp, ignore_errors=True)
-        ctx.bounded_result("log.save_load_stream_decode_roundtrip", n, n, fails, rule="every log of 0-3 records over 10 distinct raw records (2 sites; unsigned, signed negative, enum and bool values; two cycles each)",
+        ctx.bounded_result("log.save_load_stream_decode_roundtrip", n, n, fails, rule="every log of 0-3 records over 12 distinct raw records (3 sites, two event types sharing field names with different annotations; unsigned, signed negative, enum and bool values)",
                            samples=[{"raw": [[0, 0, [5, -2, 3]], [1, 1, [1]]]}], exhaustive=True)
     else:
         fails, n = [], 0
